@@ -478,4 +478,279 @@ theorem readChrom_sorted (os : Bool) : ∀ (rs : List Record) {st st' : Option E
                   · exact Nat.lt_trans hlt (b2 row hmem r.pos rfl)
                 · simp only [List.map_cons, b3]
 
+/-! ## 2. the writer with the `remove_existing_phasing` switch -/
+
+theorem updateCallX_true (cfg : Cfg) (t : Target) (r : Record) (c : Call) :
+    updateCallX true cfg t r c = updateCall { cfg with repaired := true } t r c := by
+  unfold updateCallX updateCall
+  simp only [Bool.true_or, if_true]
+  rfl
+
+theorem writeRecordX_true (cfg : Cfg) (prev : Option Nat) (r : Record) :
+    writeRecordX true cfg prev r = writeRecord { cfg with repaired := true } prev r := by
+  unfold writeRecordX writeRecord
+  simp only [if_true, updateCallX_true]
+  rfl
+
+theorem writeChromX_true (cfg : Cfg) : ∀ (rs : List Record) (prev : Option Nat),
+    writeChromX true cfg prev rs = writeChrom { cfg with repaired := true } prev rs
+  | [], _ => rfl
+  | r :: rs, prev => by
+    simp only [writeChromX, writeChrom, writeRecordX_true, writeChromX_true cfg rs]
+
+/-- without removal a record the writer does not tag is written back as it was read -/
+theorem writeRecordX_false_unreached (cfg : Cfg) (prev : Option Nat) (r : Record) (h : reaches cfg prev r = false) :
+    writeRecordX false cfg prev r = ⟨r, prev, [], false⟩ := by
+  simp [writeRecordX, h]
+
+/-- without removal, the call of a target sample that is GT-phased in the input and has no phase in this run keeps
+    everything (`elif self._remove_existing or not call.phased` is not taken) -/
+theorem updateCallX_false_keeps (cfg : Cfg) (t : Target) (r : Record) (c : Call) (hph : c.phased = true)
+    (hno : lookupPhase cfg.mav t r.pos = none) : updateCallX false cfg t r c = (c, none) := by
+  have hcs : changeStep { cfg with repaired := true } t r c = (c, none, !isHom (gcode c.gt)) := by
+    simp only [changeStep]
+    have : lookupPhase ({ cfg with repaired := true } : Cfg).mav t r.pos = none := hno
+    rw [this]
+  unfold updateCallX
+  rw [hcs]
+  simp only [hno, hph, Bool.false_or, Bool.not_true, Bool.false_eq_true, if_false]
+  cases alookup t.comps r.pos <;> rfl
+
+/-! ## 3. reader ∘ writer on one chromosome, duplicate positions and `--only-snvs` included -/
+
+def encOfTag : Tag → Enc
+  | .PS => .GTPS
+  | .HP => .HP
+
+/-- the reader's `phase_detected` state is empty or the encoding of this run's tag -/
+def StOkF (tag : Tag) (st : Option Enc) : Prop := st = none ∨ st = some (encOfTag tag)
+
+/-- the phase statement expected in the written file for the call of sample `n` at position `pos` -/
+def expPhaseF (cfg : Cfg) (pos : Nat) (n : String) : Option Phase :=
+  match findTarget cfg n with
+  | some t => written false t pos
+  | none => none
+
+def gatedPhaseF (cfg : Cfg) (prev : Option Nat) (r : Record) (n : String) : Option Phase :=
+  match findTarget cfg n with
+  | some t => if reaches cfg prev r then written false t r.pos else none
+  | none => none
+
+/-- a multi-sample input record: calls as pysam presents them, samples from the header, non-target samples without
+    phase information (otherwise the reader may legitimately raise `MixedPhasingError`) -/
+structure CallsOkF (cfg : Cfg) (r : Record) : Prop where
+  wf : ∀ nc ∈ r.calls, WfCall r.format nc.2
+  hdr : ∀ nc ∈ r.calls, nc.1 ∈ cfg.samples
+  other : ∀ nc ∈ r.calls, findTarget cfg nc.1 = none → nc.2.phased = false ∧ nc.2.get "HP" = .missing
+
+def rowPhasesF (row : Row) : Nat × List (Option Phase) := (row.pos, row.calls.map (·.2))
+
+theorem readCall_otherF (st : Option Enc) (fmt : List String) (c : Call) (h1 : c.phased = false)
+    (h2 : c.get "HP" = .missing) : readCall st fmt c = .ok (st, none) := by
+  simp [readCall, callPhases, extractHP, extractGTPS, h1, h2, detect, bind, Except.bind, pure, Except.pure]
+
+theorem readCall_writtenF (cfg : Cfg) (hr : cfg.repaired = true) (hm : cfg.mav = false) (prev : Option Nat) (r : Record)
+    (n : String) (t : Target) (hft : findTarget cfg n = some t) (c : Call) (hwf : WfCall r.format c)
+    (st : Option Enc) (hst : StOkF cfg.tag st) :
+    ∃ st', StOkF cfg.tag st' ∧
+      readCall st (writeRecord cfg prev r).record.format (finalCall cfg prev r n c) =
+        .ok (st', if reaches cfg prev r then written false t r.pos else none) := by
+  have hd := decode_written_lemma cfg hr hm prev r n t hft c hwf
+  unfold readCall
+  rw [hd]
+  rcases hst with rfl | rfl <;> cases htag : cfg.tag <;> cases hre : reaches cfg prev r <;>
+    cases hw : written false t r.pos <;>
+    simp [detect, encOfTag, StOkF, bind, Except.bind, pure, Except.pure]
+
+theorem readCalls_writtenF (cfg : Cfg) (hr : cfg.repaired = true) (hm : cfg.mav = false) (prev : Option Nat)
+    (r : Record) : ∀ (calls : List (String × Call)) (st : Option Enc), StOkF cfg.tag st →
+    (∀ nc ∈ calls, WfCall r.format nc.2) →
+    (∀ nc ∈ calls, findTarget cfg nc.1 = none → nc.2.phased = false ∧ nc.2.get "HP" = .missing) →
+    ∃ st', StOkF cfg.tag st' ∧
+      readCalls st (writeRecord cfg prev r).record.format
+          (calls.map fun nc => (nc.1, finalCall cfg prev r nc.1 nc.2)) =
+        .ok (st', calls.map fun nc => gatedPhaseF cfg prev r nc.1)
+  | [], st, hst, _, _ => ⟨st, hst, rfl⟩
+  | (n, c) :: rest, st, hst, hwf, hoth => by
+    have hwf' : ∀ nc ∈ rest, WfCall r.format nc.2 := fun nc h => hwf nc (List.mem_cons_of_mem _ h)
+    have hoth' : ∀ nc ∈ rest, findTarget cfg nc.1 = none → nc.2.phased = false ∧ nc.2.get "HP" = .missing :=
+      fun nc h => hoth nc (List.mem_cons_of_mem _ h)
+    cases hft : findTarget cfg n with
+    | none =>
+      obtain ⟨h1, h2⟩ := hoth (n, c) List.mem_cons_self hft
+      obtain ⟨st', hst', ih⟩ := readCalls_writtenF cfg hr hm prev r rest st hst hwf' hoth'
+      refine ⟨st', hst', ?_⟩
+      have hfin : finalCall cfg prev r n c = c := by simp only [finalCall, hft]
+      simp only [List.map_cons, readCalls, hfin, readCall_otherF st _ c h1 h2, ih, gatedPhaseF, hft, bind,
+        Except.bind, pure, Except.pure]
+    | some t =>
+      obtain ⟨st1, hst1, hrc⟩ :=
+        readCall_writtenF cfg hr hm prev r n t hft c (hwf (n, c) List.mem_cons_self) st hst
+      obtain ⟨st', hst', ih⟩ := readCalls_writtenF cfg hr hm prev r rest st1 hst1 hwf' hoth'
+      refine ⟨st', hst', ?_⟩
+      simp only [List.map_cons, readCalls, hrc, ih, gatedPhaseF, hft, bind, Except.bind, pure, Except.pure]
+
+/-- the reader's first test: no ALT or several -/
+def notBiallelic (r : Record) : Bool := r.alts.isEmpty || decide (r.alts.length > 1)
+/-- the reader's `--only-snvs` test -/
+def skipNonSnv (os : Bool) (r : Record) : Bool := os && !(r.ref.length == 1 && r.alts.all (·.length == 1))
+
+theorem isSnv_eq {r : Record} (h : notBiallelic r = false) :
+    isSnv r = (r.ref.length == 1 && r.alts.all (·.length == 1)) := by
+  unfold notBiallelic at h
+  unfold isSnv
+  match hr : r.alts with
+  | [] => simp [hr] at h
+  | [a] => simp
+  | a :: b :: l => simp [hr] at h
+
+/-- with `mav` off the writer's skip cascade is the reader's, except that the writer also skips positions that no
+    target has a phase for, and remembers only the positions it tagged -/
+theorem reaches_eq (cfg : Cfg) (hm : cfg.mav = false) (prev : Option Nat) (r : Record) :
+    reaches cfg prev r =
+      (!notBiallelic r && !(prev == some r.pos) && !(cfg.onlySnvs && !isSnv r) && anyPhased cfg r.pos) := by
+  unfold reaches notBiallelic
+  rw [hm]
+  cases r.alts.isEmpty <;> cases decide (r.alts.length > 1) <;> simp
+
+theorem writeRecord_prev_eq (cfg : Cfg) (prev : Option Nat) (r : Record) :
+    (writeRecord cfg prev r).prev = if reaches cfg prev r then some r.pos else prev := by
+  unfold writeRecord; split <;> rfl
+
+/-- a header sample that is a target and has something to write makes `anyPhased` true -/
+theorem anyPhased_of_written (cfg : Cfg) (hm : cfg.mav = false) (pos : Nat) (n : String) (hn : n ∈ cfg.samples) (t : Target)
+    (hft : findTarget cfg n = some t) (ph : Phase) (hw : written false t pos = some ph) : anyPhased cfg pos = true := by
+  unfold anyPhased
+  rw [List.any_eq_true]
+  refine ⟨n, hn, ?_⟩
+  rw [hft, hm]
+  unfold written at hw
+  cases h1 : alookup t.comps pos <;> cases h2 : lookupPhase false t pos <;> simp [h1, h2] at hw ⊢
+
+theorem accepted_cons (os : Bool) (prev : Option Nat) (r : Record) (rs : List Record) :
+    accepted os prev (r :: rs) =
+      if notBiallelic r then accepted os prev rs
+      else if skipNonSnv os r then accepted os prev rs
+      else if prev == some r.pos then accepted os prev rs
+      else r :: accepted os (some r.pos) rs := by
+  conv => lhs; unfold accepted
+  rfl
+
+section chrom
+variable (cfg : Cfg) (hr : cfg.repaired = true) (hm : cfg.mav = false)
+include hr hm
+
+theorem readChrom_writeChrom_general : ∀ (rs : List Record) (prevW prevR : Option Nat) (st : Option Enc),
+    StOkF cfg.tag st → (∀ r ∈ rs, CallsOkF cfg r) → rs.Pairwise (fun a b => a.pos ≤ b.pos) →
+    (∀ p, prevR = some p → ∀ r ∈ rs, p ≤ r.pos) →
+    (∀ p, prevW = some p → ∃ p', prevR = some p' ∧ p ≤ p') →
+    (∀ p, prevR = some p → prevW ≠ some p → anyPhased cfg p = false) →
+    ∃ st' rows, StOkF cfg.tag st' ∧
+      readChrom cfg.onlySnvs st prevR (outRecords (writeChrom cfg prevW rs)) = .ok (st', rows) ∧
+      rows.map rowPhasesF =
+        (accepted cfg.onlySnvs prevR rs).map (fun r => (r.pos, r.calls.map (fun nc => expPhaseF cfg r.pos nc.1)))
+  | [], _, _, st, hst, _, _, _, _, _ => ⟨st, [], hst, rfl, rfl⟩
+  | r :: rs, prevW, prevR, st, hst, hok, hpw, hR, hI1, hI2 => by
+    obtain ⟨hwf, hhdr, hoth⟩ := hok r List.mem_cons_self
+    rw [List.pairwise_cons] at hpw
+    have hok' : ∀ r' ∈ rs, CallsOkF cfg r' := fun r' h' => hok r' (List.mem_cons_of_mem _ h')
+    have hR' : ∀ p, prevR = some p → ∀ r' ∈ rs, p ≤ r'.pos := fun p hp r' h' => hR p hp r' (List.mem_cons_of_mem _ h')
+    obtain ⟨_, hpos, href, halts⟩ := writeRecord_site cfg prevW r
+    simp only [writeChrom, outRecords, List.map_cons]
+    rw [readChrom_cons, accepted_cons, halts, hpos, href, writeRecord_calls, writeRecord_prev_eq]
+    change ∃ st' rows, StOkF cfg.tag st' ∧ (if notBiallelic r then _ else if skipNonSnv cfg.onlySnvs r then _ else _) = _ ∧ _
+    have hreq := reaches_eq cfg hm prevW r
+    -- the unsorted test never fires
+    have hns : unsortedB prevR r.pos = false := by
+      cases hp : prevR with
+      | none => rfl
+      | some p => have := hR p hp r List.mem_cons_self; simp [unsortedB]; omega
+    by_cases c1 : notBiallelic r = true
+    · have hre : reaches cfg prevW r = false := by rw [hreq, c1]; rfl
+      rw [if_pos c1, if_pos c1, hre]
+      exact readChrom_writeChrom_general rs prevW prevR st hst hok' hpw.2 hR' hI1 hI2
+    · rw [if_neg c1, if_neg c1]
+      have c1' : notBiallelic r = false := by simpa using c1
+      by_cases c2 : skipNonSnv cfg.onlySnvs r = true
+      · have hre : reaches cfg prevW r = false := by
+          rw [hreq, isSnv_eq c1']
+          unfold skipNonSnv at c2
+          rw [c2]; simp
+        rw [if_pos c2, if_pos c2, hre]
+        exact readChrom_writeChrom_general rs prevW prevR st hst hok' hpw.2 hR' hI1 hI2
+      · rw [if_neg c2, if_neg c2, hns]
+        simp only [Bool.false_eq_true, if_false]
+        have c2' : (cfg.onlySnvs && !isSnv r) = false := by
+          rw [isSnv_eq c1']; unfold skipNonSnv at c2; simpa using c2
+        by_cases c4 : (prevR == some r.pos) = true
+        · -- a further record of a position that already has a row: the writer does not tag it either
+          have hre : reaches cfg prevW r = false := by
+            rw [hreq]
+            by_cases hw : prevW = some r.pos
+            · simp [hw]
+            · have hpr : prevR = some r.pos := by simpa using c4
+              rw [hI2 r.pos hpr hw]; simp
+          rw [if_pos c4, if_pos c4, hre]
+          exact readChrom_writeChrom_general rs prevW prevR st hst hok' hpw.2 hR' hI1 hI2
+        · rw [if_neg c4, if_neg c4]
+          have hltR : ∀ p, prevR = some p → p < r.pos := by
+            intro p hp
+            have h1 := hR p hp r List.mem_cons_self
+            have h2 : p ≠ r.pos := by intro e; apply c4; simp [hp, e]
+            omega
+          have hneW : (prevW == some r.pos) = false := by
+            cases hw : prevW with
+            | none => rfl
+            | some p =>
+              obtain ⟨p', hp', hle⟩ := hI1 p hw
+              have := hltR p' hp'
+              simp; omega
+          have hre : reaches cfg prevW r = anyPhased cfg r.pos := by
+            rw [hreq, c1', hneW, c2']; simp
+          obtain ⟨st1, hst1, hrc⟩ := readCalls_writtenF cfg hr hm prevW r r.calls st hst hwf hoth
+          have hgate : (r.calls.map fun nc => gatedPhaseF cfg prevW r nc.1) =
+              r.calls.map (fun nc => expPhaseF cfg r.pos nc.1) := by
+            apply List.map_congr_left
+            intro nc hnc
+            unfold gatedPhaseF expPhaseF
+            cases hft : findTarget cfg nc.1 with
+            | none => rfl
+            | some t =>
+              simp only
+              cases hw : written false t r.pos with
+              | none => simp
+              | some ph =>
+                rw [hre, anyPhased_of_written cfg hm r.pos nc.1 (hhdr nc hnc) t hft ph hw]; rfl
+          rw [hgate] at hrc
+          -- the states after the record
+          have hI1' : ∀ p, (if reaches cfg prevW r then some r.pos else prevW) = some p →
+              ∃ p', some r.pos = some p' ∧ p ≤ p' := by
+            intro p hp
+            refine ⟨r.pos, rfl, ?_⟩
+            split at hp
+            · cases hp; exact Nat.le_refl _
+            · obtain ⟨p', hp', hle⟩ := hI1 p hp
+              have := hltR p' hp'; omega
+          have hI2' : ∀ p, some r.pos = some p → (if reaches cfg prevW r then some r.pos else prevW) ≠ some p →
+              anyPhased cfg p = false := by
+            intro p hp hne
+            cases hp
+            cases ha : anyPhased cfg r.pos with
+            | false => rfl
+            | true => rw [hre, ha] at hne; simp at hne
+          have hR'' : ∀ p, some r.pos = some p → ∀ r' ∈ rs, p ≤ r'.pos := by
+            intro p hp r' h'; cases hp; exact hpw.1 r' h'
+          obtain ⟨st', rows, hst', h1, h2⟩ :=
+            readChrom_writeChrom_general rs _ (some r.pos) st1 hst1 hok' hpw.2 hR'' hI1' hI2'
+          refine ⟨st', ⟨r.pos, r.ref, r.alts.headD "",
+            ((r.calls.map fun nc => (nc.1, finalCall cfg prevW r nc.1 nc.2)).map (fun nc => gcode nc.2.gt)).zip
+              (r.calls.map (fun nc => expPhaseF cfg r.pos nc.1))⟩ :: rows, hst', ?_, ?_⟩
+          · simp only [outRecords] at h1
+            simp only [hrc, bind, Except.bind, pure, Except.pure, h1]
+          · simp only [List.map_cons, h2, rowPhasesF]
+            congr 2
+            rw [List.map_snd_zip]
+            simp
+end chrom
+
 end WhVerif.C09
